@@ -22,13 +22,23 @@ ALPHA = ["a", "b", "Z", "0", "9", ".", "/", "-", "_", "#", "?", "=", "&", "%", "
          " ", "\t", "\x0b", "'", '"', "(", ")", ",", ";", "{", "}", "[", "]", "<", ">", "|", "^", "`",
          "\x00", "\x01", "\x08", "\x0e", "\x1b", "\x1c", "\x1f", "\x7f", "\x80", "\x85", "\xa0", "\xe9", " ",
          " ", " ", "　", "﻿", "\U0001d4b3", "\ud800", "\\", "\n", "\r", "\f", "u", "r", "l"]
-# the property's set: no backslash, no newline characters
-SAFE = [c for c in ALPHA if c not in "\\\n\r\f"]
+# replacement characters: the whole alphabet, backslash and newline characters included (helper.string writes them
+# since 546430b; helper.uri quotes a backslash since 3f41842); the few values helper.string cannot represent
+# (see in_set) are still generated but the survive-output clause is not demanded for them
+SAFE = list(ALPHA)
 URLPOOL = ["a.png", "img/b(1).gif", "a b", "it's", 'x"y', "a,b;c", "\xe9.png", "\x01", "\x7f", " lead", "trail ",
            "", "url(x)", "a)b", "(", " ", "\xa0x", "\U0001d4b3", "http://h/p?q=1&r=2#f", "data:image/png;base64,AA==",
            "'", '"', "''", '""', "'a'", '"a"', "a'", 'a"', ")", ";", ",", " ", "\t", "x\ty", "\x00", "a\x1fb", "\x85",
-           "　", "{", "}", "a}b{", "/*c*/", "*/", "!important", "@import", "﻿"]
+           "　", "{", "}", "a}b{", "/*c*/", "*/", "!important", "@import", "﻿",
+           "c:\\dir\\f.png", "\\", "\\\\", "a\\", "\\5c", "\\a", "a\nb", "\r", "x\\\"y", "a\\ b", "\\g\\\\"]
 BARE_OK = set("abcdefghijklmnopqrstuvwxyzABCDEFGHIJKLMNOPQRSTUVWXYZ0123456789._/-#?=&%:~+!$@*\xe9\U0001d4b3")
+
+
+def plant_url(rng):
+    """a URL for the source text: no backslash (the implementation reads a backslash in a source string only in the
+    spelling helper.string itself writes -- url('\\5c ') is read as the empty URL, '\\\\' as two backslashes: escape
+    resolution of string values, outside this property); newline characters are planted (as hex escapes)"""
+    return rand_url(rng).replace("\\", "/")
 
 
 def rand_url(rng):
@@ -41,6 +51,12 @@ def rand_url(rng):
 
 
 # ---------------------------------------------------------------------------------------------- rendering a tree
+def src_escape(u, q):
+    """source spelling of a string value inside quotes q (independent of helper.string: every backslash as the
+    hex escape \\5c, newline characters as hex escapes, the quote with a backslash)"""
+    return "".join({"\\": "\\5c ", "\n": "\\a ", "\r": "\\d ", "\f": "\\c ", q: "\\" + q}.get(c, c) for c in u)
+
+
 def render_url(rng, u):
     forms = ["dq", "sq"]
     if u and all(c in BARE_OK for c in u):
@@ -50,9 +66,9 @@ def render_url(rng, u):
     f = rng.choice(forms)
     pad1, pad2 = rng.choice(["", "", " ", "\t "]), rng.choice(["", "", " "])
     if f == "dq":
-        body = '"' + u.replace('"', '\\"') + '"'
+        body = '"' + src_escape(u, '"') + '"'
     elif f == "sq":
-        body = "'" + u.replace("'", "\\'") + "'"
+        body = "'" + src_escape(u, "'") + "'"
     else:
         body = u
     return rng.choice(["url(", "url(", "URL(", "Url("]) + pad1 + body + pad2 + ")"
@@ -72,7 +88,7 @@ def gen_value(rng, depth, urls, ms=False):
     """returns (model value, text); appends planted URLs to `urls` in document order"""
     r = rng.random()
     if r < 0.5:
-        u = rand_url(rng)
+        u = plant_url(rng)
         urls.append(u)
         return ["U", u], render_url(rng, u)
     if r < 0.7 and depth < 3:
@@ -148,9 +164,9 @@ def gen_rule(rng, depth, urls, in_media):
 def render_import(rng, u):
     f = rng.choice(["str", "str1", "url"])
     if f == "str":
-        t = '"' + u.replace('"', '\\"') + '"'
+        t = '"' + src_escape(u, '"') + '"'
     elif f == "str1":
-        t = "'" + u.replace("'", "\\'") + "'"
+        t = "'" + src_escape(u, "'") + "'"
     else:
         t = render_url(rng, u)
     return "@import " + t + rng.choice(["", "", " print", " screen, tv"]) + ";"
@@ -163,7 +179,7 @@ def gen_sheet(rng):
         items.append(["O"])
         texts.append("/* first */")
     for _ in range(rng.choice([0, 0, 1, 1, 2, 3])):
-        u = rand_url(rng) or "e.css"      # an @import with an empty href is not a valid rule (by design)
+        u = plant_url(rng) or "e.css"      # an @import with an empty href is not a valid rule (by design)
         imports.append(u)
         items.append(["I", u])
         texts.append(render_import(rng, u))
@@ -413,6 +429,22 @@ def model_fn_result(kind, line):
 
 # ---------------------------------------------------------------------------------------------- the oracle
 def in_set(u):
+    """the values helper.string can represent (CssV.QuoteFacts.rep_ok): everything except a backslash run of odd
+    length directly before a double quote and a backslash directly before a newline character"""
+    st = 0
+    for c in u:
+        if c == "\\":
+            st = {0: 1, 1: 2, 2: 1}[st]
+            continue
+        if st == 1 and (c == '"' or c in "\n\r\f"):
+            return False
+        if st == 2 and c in "\n\r\f":
+            return False
+        st = 0
+    return True
+
+
+def prop_set(u):
     return not any(c in "\\\n\r\f" for c in u)
 
 
@@ -490,7 +522,7 @@ KEYS = ("tree", "css", "parts", "imports", "urls", "mode", "arg", "ign")
 def run(ctx):
     thorough = ctx.tier == "thorough"
     rng = ctx.rng
-    ctx.regen("tokenizer", "urlquote")
+    ctx.regen("tokenizer", "quote", "urlquote")
     ctx.coq_build("props/C12.v")
     binary = ctx.ocaml_build("urls")
     cpath = VERIF / "corpus" / "C12.json"
@@ -520,7 +552,7 @@ def run(ctx):
         fn_cases.append(("K", u, ""))
         fn_cases.append(("G", x, ""))
         fn_cases.append(("W", x, ""))
-        if i < n_exh:       # quoted forms the serializer itself writes
+        if i < n_exh:       # quoted forms as they appear in token values
             fn_cases.append(("V", "url(" + '"' + x.replace('"', '\\"') + '"' + ")", ""))
             fn_cases.append(("K", "url(" + "'" + x.replace("'", "\\'") + "'" + ")", ""))
     impl = ctx.pool_map(impl_fn, fn_cases, procs=6, chunksize=2000)
@@ -542,8 +574,9 @@ def run(ctx):
     for c, i in zip(fn_cases, impl):
         if c[0] == "T" and in_set(c[1]):
             rt += 1
+            # (the token value equals the written text only when nothing in it is spelled with an escape)
             if not (isinstance(i, list) and i[0] == "URI" and i[2] == "=" + c[1] and i[3] == "=" + c[1]
-                    and i[1] + c[2] == _huri_impl(c[1]) + c[2]):
+                    and (not prop_set(c[1]) or i[1] == _huri_impl(c[1]))):
                 ctx.violation("helper.uri(v) followed by other text is not read back as the URI token with value v",
                               {"kind": "fn", "v": c[1], "follow": c[2], "observed": i},
                               sig_text="fn roundtrip " + json.dumps(c[1]))
@@ -593,7 +626,11 @@ def run(ctx):
     distinct = set()
     seen_css = set()
     nviol = 0
+    skipped = with_bs = 0
     for c, r in zip(e2e, res):
+        if "EXC" not in r:
+            skipped += not all(in_set(u) for u in r["urls1"])
+            with_bs += any("\\" in u or "\n" in u for u in r["urls1"])
         d = oracle(c["tree"], c["imports"], c["urls"], c["mode"], c["arg"], c["ign"], r)
         if len(c["imports"]) + len(c["urls"]) >= 2:
             distinct.add(c["css"])
@@ -657,6 +694,8 @@ def run(ctx):
         "function_level_roundtrips_checked": rt,
         "end_to_end_cases": len(e2e),
         "style_cases": len(st_cases),
+        "end_to_end_cases_with_backslash_or_newline_urls": with_bs,
+        "survive_clause_not_demanded_unrepresentable_value": skipped,
         "distinct_nontrivial": len(distinct) + len(nontrivial),
         "rule": "function level: helper.uri / string / forbidden-test / urivalue / stringvalue / _uritokenvalue / "
                 "_stringtokenvalue and the first token of helper.uri(v)+follow on the empty string, all 1- and 2-character "
@@ -705,8 +744,9 @@ def replay(ctx, path):
 
 TRUSTED = [
     "Coq 8.16.1 kernel and VM (vm_compute for the finite checks on the regenerated character classes); no native_compute",
-    "translate/tokenizer.py + translate/urlquote.py + translate/regexlib.py (CPython's re._parser parses the patterns; "
-    "urlquote.py checks the statement shape of helper.string/stringvalue/uri/urivalue, _uritokenvalue, _stringtokenvalue "
+    "translate/tokenizer.py + translate/quote.py (C03: helper.string / stringvalue / _stringtokenvalue) + "
+    "translate/urlquote.py + translate/regexlib.py (CPython's re._parser parses the patterns; "
+    "urlquote.py checks the statement shape of helper.uri / urivalue / _uritokenvalue "
     "and the call sites in serialize.py, prodparser.PreDef.uri, URIValue, CSSImportRule)",
     "extraction (ExtrOcamlBasic only) + ocamlfind ocamlopt, ocaml/urls_driver.ml",
     "harness/props/c12.py: sheet generator/renderer, the CSSOM reader extract_tree (rule types, getProperties(all=True), "
@@ -723,7 +763,10 @@ ASSUME = [
     "Print Assumptions for every theorem of props/C12.v: see coverage.print_assumptions (all closed under the global context)",
     "document order inside @page = own declarations, then margin rules (the order of the object model and of the "
     "serializer; the generator writes them in that order)",
-    "URL strings of the text-level theorems: any code points except backslash, \\n, \\r, \\f (the property's set)",
+    "URL strings of the text-level theorems: every value helper.string can represent -- any code points, backslash and "
+    "\\n \\r \\f included, except a backslash run of odd length directly before a double quote and a backslash directly "
+    "before a newline character (C03's open finding on helper.string/stringvalue); the property's own set (no backslash, "
+    "no newline) is a subset (uri_roundtrip_property_set)",
     "the replacer is a pure function in the model; the harness checks the order and number of its calls on the implementation",
     "an @import with an empty href is not a valid rule (CSSImportRule rejects it by design), so import hrefs are non-empty "
     "in the end-to-end stream; not generated because of defects outside this property: a '+' token in a margin rule's "
